@@ -13,6 +13,8 @@ How the source is read (trusted):
     `impl Serialize for Value` writes;
   * `impl Serialize for Value`: `serialize_bool` / `serialize_str` / `serialize_f64` write a JSON bool / string / number — serde_json writes `null` for a
     non-finite f64 —, `serialize_seq` + `serialize_element` for every element + `end` write an array.
+  * `impl Visitor for ValueVisitor` (reached through `deserialize_any`): the JSON kinds that have a `visit_` method are accepted as that method says
+    (`v as f64` on an integer token = `jn.ofInt`), `visit_seq` collects `next_element()?` until `None`; every other kind is refused by serde's default method.
 Anything else (other attributes, tuple variants, other field types, another shape of the Serialize impl) raises `Unrecognised`.
 """
 import os, sys, re
@@ -88,6 +90,47 @@ def gen_serde(srcdir):
             varms[kind] = f'  | .arr {var} => .arr (ofValues jn {var})'
         else: raise Unrecognised(f'{kind} arm of Value::serialize')
     if set(varms) != {'Boolean', 'String', 'Number', 'Array'}: raise Unrecognised('arms of Value::serialize')
+    # ---- impl Visitor for ValueVisitor (the Deserialize side of Value): which JSON kinds are accepted, and as what
+    vsrc = strip_tests(val)
+    if not re.search(r'deserializer\s*\.\s*deserialize_any\s*\(\s*ValueVisitor\s*\)', vsrc): raise Unrecognised('Value::deserialize is not deserialize_any(ValueVisitor)')
+    visits = {}
+    for m in re.finditer(r'fn\s+(visit_\w+)\s*<', vsrc): visits[m.group(1)] = find_fn(vsrc, m.group(1), after='for ValueVisitor')
+    def visit_body(name, arg, depth=0):
+        """Lean text of what `visit_<name>(arg)` returns (an Option (Value N)); follows `self.visit_x(..)` delegations"""
+        if depth > 4 or name not in visits: raise Unrecognised(f'{name}')
+        f = visits[name]; b = f['body']
+        if b[1] or b[2] is None: raise Unrecognised(f'body of {name}')
+        t = b[2]; par = [p for p in f['params'] if p[0] != 'self'][0][0]
+        if t[0] == 'call' and t[1] == ('path', ['Ok']) and len(t[2]) == 1 and t[2][0][0] == 'call' and t[2][0][1][0] == 'path' and t[2][0][1][1][0] == 'Value' and t[2][0][2] == [('path', [par])]:
+            return f"some (.{ {'Boolean': 'bool', 'String': 'str', 'Number': 'num'}[t[2][0][1][1][1]] } {arg})"
+        if t[0] == 'mcall' and t[1] == ('path', ['self']) and t[2].startswith('visit_') and len(t[4]) == 1:
+            a = t[4][0]
+            if a == ('mcall', ('path', [par]), 'to_string', None, []): return visit_body(t[2], arg, depth + 1)
+            if a == ('cast', ('path', [par]), 'f64'): return visit_body(t[2], f'(jn.ofInt {arg})', depth + 1)          # `v as f64` on u64 / i64: the nearest double
+        raise Unrecognised(f'body of {name}')
+    sq = visits.get('visit_seq')
+    ok_seq = False
+    if sq:
+        st, tail = sq['body'][1], sq['body'][2]
+        ok_seq = (len(st) == 2 and st[0][0] == 'let' and st[0][2] == ('macro', 'vec', []) and st[1][0] == 'expr' and st[1][1][0] == 'whilelet'
+                  and st[1][1][1] == ('ptuplestruct', ['Some'], [('pbind', 'value')]) and st[1][1][2] == ('try', ('mcall', ('path', ['seq']), 'next_element', None, []))
+                  and tail == ('call', ('path', ['Ok']), [('call', ('path', ['Value', 'Array']), [('path', [st[0][1][1]])])]))
+        if ok_seq:
+            body = st[1][1][3]; inner = body[1][0][1] if len(body[1]) == 1 and body[2] is None else body[2]
+            ok_seq = inner == ('mcall', ('path', [st[0][1][1]]), 'push', None, [('path', ['value'])])
+        if not ok_seq: raise Unrecognised('visit_seq')
+    if any(k in visits for k in ('visit_unit', 'visit_none', 'visit_some', 'visit_map', 'visit_newtype_struct', 'visit_enum', 'visit_bytes', 'visit_char')): raise Unrecognised('a further visit_ method')
+    tv = ['mutual', '/-- `impl Visitor for ValueVisitor` through `deserialize_any`: serde_json calls visit_bool / visit_str / visit_u64 or visit_i64 (integer tokens) / visit_f64 / visit_seq;',
+          '    a kind without a visit_ method (null, objects) is refused by the default method -/', 'def toValue (jn : JsonNum N) : Json N → Option (Value N)']
+    tv.append('  | .bool b => ' + (visit_body('visit_bool', 'b') if 'visit_bool' in visits else 'none'))
+    tv.append('  | .str s => ' + (visit_body('visit_str', 's') if 'visit_str' in visits else 'none'))
+    tv.append('  | .num x => ' + (visit_body('visit_f64', 'x') if 'visit_f64' in visits else 'none'))
+    iu, ii = (visit_body('visit_u64', 'i') if 'visit_u64' in visits else None), (visit_body('visit_i64', 'i') if 'visit_i64' in visits else None)
+    if iu != ii: raise Unrecognised('visit_u64 and visit_i64 differ')
+    tv.append('  | .int i => ' + (iu or 'none'))
+    tv.append('  | .arr xs => ' + ('(toValues jn xs).map .arr' if ok_seq else 'none'))
+    tv += ['  | .null => none', '  | .obj _ => none', 'def toValues (jn : JsonNum N) : List (Json N) → Option (List (Value N))', '  | [] => some []',
+           '  | j :: js => match toValue jn j with', '    | some v => (toValues jn js).map (v :: ·)', '    | none => none', 'end', '']
     out = ('/-\n  SlacModel.Generated.SrcSerde — GENERATED on every check run by /verif/tools/rs2lean_serde.py from the CURRENT text of /repo/src/ast.rs, operator.rs and value.rs\n'
            '  (the serde derives and `impl Serialize for Value`).  Do not edit.  SlacProps/C12Source.lean proves SlacModel/Json.lean equal to these functions.\n-/\n'
            'import SlacModel.Json\nset_option autoImplicit false\nnamespace Slac.Generated.SrcSerde\nopen Slac\nvariable {N : Type}\n\n')
@@ -96,7 +139,8 @@ def gen_serde(srcdir):
     out += 'mutual\n/-- `impl Serialize for Value` through serde_json -/\ndef ofValue (jn : JsonNum N) : Value N → Json N\n' + '\n'.join(varms[k] for k in ('Boolean', 'String', 'Number', 'Array')) + '\n'
     out += 'def ofValues (jn : JsonNum N) : List (Value N) → List (Json N)\n  | [] => []\n  | v :: vs => ofValue jn v :: ofValues jn vs\nend\n\n'
     out += f'mutual\n/-- `Expression` with `serde(tag = "{eopts["tag"]}", rename_all = "camelCase")` -/\ndef ofExpr (jn : JsonNum N) : Expr N → Json N\n' + '\n'.join(arms) + '\n'
-    out += 'def ofExprs (jn : JsonNum N) : List (Expr N) → List (Json N)\n  | [] => []\n  | e :: es => ofExpr jn e :: ofExprs jn es\nend\n'
+    out += 'def ofExprs (jn : JsonNum N) : List (Expr N) → List (Json N)\n  | [] => []\n  | e :: es => ofExpr jn e :: ofExprs jn es\nend\n\n'
+    out += '\n'.join(tv)
     return out + '\nend Slac.Generated.SrcSerde\n'
 
 if __name__ == '__main__':
